@@ -4,6 +4,16 @@ import json, os
 V = os.path.dirname(os.path.dirname(os.path.abspath(__file__)))
 ALL = ["C%02d" % i for i in range(1, 21)]
 CHECKS = {
+ "C08": dict(
+   text='TLC model-checks the request life cycle against every transport outcome (specs/http/HttpAbs.tla: at most one callback, none after cancel, body within the limit, oversize shape, the bound addbody relies on) and generates the structures of well-formed responses from the grammar in HttpGen.tla (1xx interim blocks shorter and longer than the final header block, three framings, chunk plans up to above the 1 MiB wait cap, optional-whitespace forms, body sizes at/below/above the limit); these are concretised to bytes and, together with structured hostile mutations (bad/huge/negative/whitespace chunk sizes, missing CRLF, NUL bytes, >64 KiB headers, 1xx floods, buffer-edge alignment of empty lines, truncation, bit flips), sent under many segmentations (down to single bytes, EAGAIN/EINTR noise, EOF/error/stall endings, connection plans, cancellation instants) to the real http.c stack in a forked ASan/UBSan/LSan child on scripted sockets; TLC validates every trace against HttpTrace.tla, whose Decode operator is the C09 oracle and whose other guards are the C08 clauses (one callback, status range, body limit, oversize shape, no leak, request bytes verbatim).',
+   note="Memory safety is observed by the sanitizers on the executions the specification generates (not proved); limits below 2^31; at most 450 interim responses / 1500 chunks per response; the Python concretiser is the encoder side of the oracle.",
+   technique="TLA+ model checking (TLC) of the life cycle + TLC-generated response structures replayed into the real code + trace validation against the TLA+ spec",
+   design="6/C08"),
+ "C09": dict(
+   text='TLC model-checks the request life cycle against every transport outcome (specs/http/HttpAbs.tla: at most one callback, none after cancel, body within the limit, oversize shape, the bound addbody relies on) and generates the structures of well-formed responses from the grammar in HttpGen.tla (1xx interim blocks shorter and longer than the final header block, three framings, chunk plans up to above the 1 MiB wait cap, optional-whitespace forms, body sizes at/below/above the limit); these are concretised to bytes and, together with structured hostile mutations (bad/huge/negative/whitespace chunk sizes, missing CRLF, NUL bytes, >64 KiB headers, 1xx floods, buffer-edge alignment of empty lines, truncation, bit flips), sent under many segmentations (down to single bytes, EAGAIN/EINTR noise, EOF/error/stall endings, connection plans, cancellation instants) to the real http.c stack in a forked ASan/UBSan/LSan child on scripted sockets; TLC validates every trace against HttpTrace.tla, whose Decode operator is the C09 oracle and whose other guards are the C08 clauses (one callback, status range, body limit, oversize shape, no leak, request bytes verbatim).',
+   note="Same machinery as C08 with the emphasis on well-formed responses (Decode oracle) and an independent seed; header blocks below the client's documented 64 KiB limit.",
+   technique="TLA+ model checking (TLC) of the life cycle + TLC-generated response structures replayed into the real code + trace validation against the TLA+ spec",
+   design="6/C09"),
  "C07": dict(
    text="Exhaustive TLC model checking of the reader's window arithmetic (specs/netbuf/NbReadImpl.tla: growth, compaction, one read in flight credited at once, re-arm, cancel; every fragmentation and wait/consume/cancel order over a scaled buffer of 4) and of the writer's queue (NbWriteImpl.tla: coalescing, one write in flight, sticky failure; every accept fragmentation and failure point); behaviours simulated from both models are scaled by 1024 to the real 4096-byte buffers and, together with seeded random programs (waits from 1 to 5x4096 started from callbacks and from outside, cancel at arbitrary instants, write/reserve/consume sizes 0..3x4096, EAGAIN/EINTR/EOF/error positions), executed by the real netbuf/network/events code on scripted sockets; every trace is validated by TLC against NbTrace.tla (window content = peer stream from the first unconsumed byte, status clauses, prefix property of the writer, single failure callback).",
    note="Assumes the application does not consume while a wait is pending; scripted sockets are the trusted environment; no SSL function pointers.",
